@@ -178,7 +178,7 @@ Proof.
   { intros Hn. apply He. apply (rules_imply_sound _ _ Himp o i Hn). }
   destruct (eval o (e_eff ea) i) as [t|] eqn:Et; [|contradiction].
   exists t. unfold all_errors. apply in_flat_map. exists ea. split.
-  - apply filter_In. auto.
+  - unfold live_part. cbv zeta. apply filter_In. split; [exact Hina | exact Hlive].
   - unfold entry_errors. apply in_flat_map. exists i. split; [rewrite Hp; exact Hi|].
     rewrite Et. left; reflexivity.
 Qed.
